@@ -143,6 +143,13 @@ def generate(run_seed):
     script = []
     pool = names
     template = rng.random() < 0.5
+    if rng.random() < 0.12:
+        # ask, let the loaded terminology be replaced (or its cache expire), ask again: what an
+        # object answered before must not stick to it
+        u = rng.choice(pool)
+        ask = rng.choice(["repository", "repository", "load", "t_load"])
+        script += [[ask, u], rng.choice([["refresh", rng.choice([u] + roots)], ["advance"]]), [ask, u]]
+        template = None
     if template:
         root = rng.choice(roots)
         script.append([rng.choice(["deferred_load", "deferred_load", "t_deferred_load"]), root])
@@ -154,7 +161,7 @@ def generate(run_seed):
         script.append([last, root])
         if last == "t_load" or rng.random() < 0.2:
             script.append([last, root])     # the same call again: the same object
-    for _ in range(0 if template else rng.randint(2, 5)):
+    for _ in range(0 if template else (rng.randint(0, 2) if template is None else rng.randint(2, 5))):
         r = rng.random()
         u = rng.choice(pool if rng.random() < 0.5 else roots)
         if r < 0.3:
@@ -502,6 +509,7 @@ def run_script(case, mode, forced=None):
 
         harness_doc = odml.Document(author="c18")
         n_inc = [0]
+        rep_secs = {}
 
         def do(op):
             name = op[0]
@@ -526,13 +534,22 @@ def run_script(case, mode, forced=None):
                 return {"children": sorted([s.name for s in sec.sections] +
                                            [p.name for p in sec.properties])}
             if name == "repository":
-                n_inc[0] += 1
-                sec = odml.Section(name="rep%d" % n_inc[0], type="type_%s" % op[1],
-                                   parent=harness_doc)
-                sec.repository = url
+                # one harness Section per resource, asked again by later calls: what it answers
+                # must follow the terminology that is loaded now (e.g. after a refresh)
+                sec = rep_secs.get(op[1])
+                if sec is None:
+                    n_inc[0] += 1
+                    sec = rep_secs[op[1]] = odml.Section(name="rep%d" % n_inc[0],
+                                                         type="type_%s" % op[1], parent=harness_doc)
+                    sec.repository = url
                 eq = sec.get_terminology_equivalent()
+                one = eq if (eq is None or kind_of(eq) == "sec") else (list(eq) or [None])[0]
+                own = None
+                if one is not None:
+                    own = sorted(str(v) for p in one.properties if p.name == "p_%s" % op[1]
+                                 for v in p.values)
                 return {"equivalent": None if eq is None else
-                        (eq.name if kind_of(eq) == "sec" else [e.name for e in eq])}
+                        (eq.name if kind_of(eq) == "sec" else [e.name for e in eq]), "own": own}
             if name in ("t_deferred_load", "t_load"):
                 import odml.templates as TP
                 handler = world.__dict__.setdefault("templ", TP.TemplateHandler())
@@ -629,6 +646,7 @@ class Model(object):
         self.src = {}
         self.T = {}
         self.TP = {}
+        self.own = {}        # resource -> [its own version marker] as loaded now, None if no document
         self.reload = False
         for n, node in self.nodes.items():
             state = scen["cache"][n]
@@ -684,6 +702,7 @@ class Model(object):
         if tag[0] == "ok":
             doc = self._resolve_includes(n, n + tag[1])
         self.T[n] = doc                      # parsed or not: the answer stays until refresh
+        self.own[n] = None if (doc is None or self.nodes[n].get("sectionless")) else [n + tag[1]]
         return doc
 
     def templ(self, n):
@@ -711,6 +730,8 @@ class Model(object):
                 res = self.term(n)
                 if name == "load":
                     exp = "none" if res is None else frozenset(res)
+                elif name == "repository" and n in self.nodes:
+                    exp = ("own", self.own.get(n) if res is not None else None)
             elif name in ("t_load", "t_deferred_load"):
                 res = self.templ(n)
                 if name == "t_load":
@@ -718,6 +739,7 @@ class Model(object):
             elif name == "refresh":
                 self.reload = True
                 self.T.clear()
+                self.own.clear()
                 self.term(n)
                 self.reload = False
             elif name == "advance":
@@ -764,6 +786,12 @@ def judge_model(case, ref):
         return "None" if x == "none" else "a document made of %s" % sorted(x)
     for i, (call, exp) in enumerate(zip(ref["calls"], exp_calls)):
         if exp is None or call["outcome"][0] != "ret":
+            continue
+        if isinstance(exp, tuple) and exp[0] == "own":
+            got_own = (call["outcome"][1] or {}).get("own")
+            if got_own != exp[1]:
+                return vio("repository", "content", "the terminology equivalent asked for %s is made of "
+                           "%r, the model expects %r" % (call["op"][1], got_own, exp[1]), i)
             continue
         got = markers_of(call["outcome"][1])
         if got != exp:
